@@ -108,7 +108,10 @@ func (f *frame) instr(in ssa.Instruction, st *bstate) {
 		f.havocAll(st, "send")
 	case *ssa.Select:
 		vc.note("abstracted: select in " + f.fn.String())
-		f.havocAll(st, "select")
+		if x.Blocking {
+			// the goroutine may wait here: whatever other goroutines do meanwhile
+			f.havocAll(st, "select")
+		}
 		f.setVal(x, f.havocValue(st, f.id+x.Name(), x.Type()))
 		// index result is within range
 		tv := f.vals[x]
